@@ -10,7 +10,8 @@
 
    No axioms; every theorem is followed by Print Assumptions. *)
 From Coq Require Import ZArith NArith List Bool Sorted Lia ZifyBool String.
-From DudV Require Import Base.Bytes Base.JsonStr Base.Json Model.Fs Model.Cache Proofs.CacheDefs.
+From DudV Require Import Base.Bytes Base.JsonStr Base.Json Base.GoPath Model.Fs Model.Cache
+  Model.Stage Model.Index Model.System Proofs.CacheDefs.
 Import ListNotations.
 Local Open Scope N_scope.
 
@@ -1388,9 +1389,10 @@ Section Idem.
         pose proof (commit_node_isdir _ _ _ _ _ _ _ Hch) as Eid.
         cbn [commit_entries]. rewrite Eid, Esk, (proj1 Hgn). cbn [negb].
         assert (Ech : child_of old2 name ch' = child').
-        { unfold child_of. rewrite <- Hcp, <- Fp.
-          rewrite (Hlk (a_path child', child') (or_introl eq_refl)). cbn [snd].
-          rewrite Fd, Hcd, Eid, eqb_reflx. reflexivity. }
+        { assert (Hpath : a_path child' = name) by congruence.
+          pose proof (Hlk (a_path child', child') (or_introl eq_refl)) as Hl.
+          cbn [fst snd] in Hl. rewrite Hpath in Hl.
+          unfold child_of. rewrite Hl, Fd, Hcd, Eid, eqb_reflx. reflexivity. }
         rewrite Ech.
         rewrite (IHch _ _ _ _ _ _ Hch0 Hwfp Hc Hmp Hch c2 (cache_le_trans _ _ _ Hle1 Hle2) Hc2 Hs2).
         rewrite (IHr _ _ _ _ _ _ _ Hsr (Forall_ctree_le _ _ _ Hle0 Hr0) Hold Hc0 M0 Hr c2 old2 Hle2 Hc2 Hs2).
@@ -1450,7 +1452,7 @@ Section Idem.
       destruct (Hle2 (H (enc_manifest M)) (mkObj (enc_manifest M) cache_perms)) as (o2 & Hg2 & E2);
         [rewrite cget_cput, beqb_refl; reflexivity|]. cbn [o_data] in E2.
       rewrite commit_node_dir. cbn [set_cs a_isdir a_norec a_path a_cs]. rewrite Eisd.
-      unfold old_contents. cbn [a_cs]. rewrite (Hhas _), Hg2, E2, Hdec. cbn [m_contents M].
+      unfold old_contents. cbn [a_cs set_cs]. rewrite (Hhas _), Hg2, E2, Hdec. cbn [m_contents M].
       rewrite (I_entries es IH _ _ _ _ _ _ _ Hs Hes Hoo Hc Hmp He c2 m
                          (cache_le_trans _ _ _ Hle1 Hle2) Hc2 Hs2).
       + cbv zeta. fold M. rewrite (cput_id _ _ _ Hc2 Hs2 Hg2 E2). reflexivity.
@@ -1483,3 +1485,378 @@ Section Idem.
 End Idem.
 Print Assumptions commit_idem_ctree.
 Print Assumptions commit_idem_tame.
+
+(* ------------------------------------------------------------------------------------------ *)
+(* C02 at the level of commands and histories                                                  *)
+(* ------------------------------------------------------------------------------------------ *)
+
+(* the input loop of commit_stage with the recursive call abstracted *)
+Definition commit_ins (rec : istate -> list bytes -> bytes -> res (istate * list bytes)) :=
+  fix ins (arts : list artifact) (st : istate) (done : list bytes)
+    : res (list artifact * list artifact * istate * list bytes) :=
+    match arts with
+    | [] => Ok ([], [], st, done)
+    | a :: r =>
+      match find_owner (i_idx st) (a_path a) with
+      | None =>
+        match ins r st done with
+        | Ok (owned, plain, st', done') => Ok (owned, a :: plain, st', done')
+        | Err => Err
+        end
+      | Some (op, _) =>
+        match rec st done op with
+        | Err => Err
+        | Ok (st1, done1) =>
+          let cs := match find_owner (i_idx st1) (a_path a) with
+                    | Some (_, up) => a_cs up | None => a_cs a end in
+          match ins r st1 done1 with
+          | Ok (owned, plain, st', done') => Ok (set_cs a cs :: owned, plain, st', done')
+          | Err => Err
+          end
+        end
+      end
+    end.
+
+Section Histories.
+  Variable H : bytes -> bytes.
+  Hypothesis Hinj : H_inj H.
+
+  (* content-addressed and append-only, relative to a starting cache *)
+  Definition grows (c c' : cache) : Prop := cache_ok H c -> cache_ok H c' /\ cache_le c c'.
+
+  Lemma grows_refl c : grows c c.
+  Proof. intros Hc. split; [exact Hc|apply cache_le_refl]. Qed.
+
+  Lemma grows_trans c1 c2 c3 : grows c1 c2 -> grows c2 c3 -> grows c1 c3.
+  Proof.
+    intros G12 G23 Hc. destruct (G12 Hc) as [Hc2 L12]. destruct (G23 Hc2) as [Hc3 L23].
+    split; [exact Hc3|exact (cache_le_trans _ _ _ L12 L23)].
+  Qed.
+
+  Lemma commit_top_grows a root c st root' c' a' :
+    commit_top H a root c st = Ok (root', c', a') -> grows c c'.
+  Proof.
+    unfold commit_top. destruct (slot_of root (a_path a)) as [slot|]; [|discriminate].
+    destruct (commit_art H a slot c st) as [[[slot' c1] a1]|] eqn:Ea; [|discriminate].
+    destruct (put root (comps (a_path a)) slot') as [root1|]; [|discriminate].
+    intros Hok. injection Hok as _ <- _.
+    unfold commit_art in Ea. destruct slot as [n|]; [|discriminate].
+    destruct (commit_node H a n c st) as [[[n' c2] a2]|] eqn:En; [|discriminate].
+    injection Ea as _ <- _. intros Hc. exact (commit_cache_ok H Hinj _ _ _ _ _ _ _ Hc En).
+  Qed.
+
+  Lemma commit_arts_grows arts : forall fs root c st l root' c',
+    commit_arts H arts fs root c st = Ok (l, root', c') -> grows c c'.
+  Proof.
+    induction arts as [|a r IH]; intros fs root c st l root' c'; cbn [commit_arts].
+    - intros Hok. injection Hok as _ _ <-. apply grows_refl.
+    - match goal with |- match ?X with _ => _ end = _ -> _ => destruct X as [[[root1 c1] a1]|] eqn:Et end;
+        [|discriminate].
+      destruct (commit_arts H r fs root1 c1 st) as [[[l2 root2] c2]|] eqn:Er; [|discriminate].
+      intros Hok. injection Hok as _ _ <-.
+      exact (grows_trans _ _ _ (commit_top_grows _ _ _ _ _ _ _ Et) (IH _ _ _ _ _ _ _ Er)).
+  Qed.
+
+  Lemma commit_ins_grows rec :
+    (forall st done op st' done', rec st done op = Ok (st', done') -> grows (i_cache st) (i_cache st')) ->
+    forall arts st done owned plain st' done',
+      commit_ins rec arts st done = Ok (owned, plain, st', done') -> grows (i_cache st) (i_cache st').
+  Proof.
+    intros Hrec arts. induction arts as [|a r IH]; intros st done owned plain st' done'; cbn [commit_ins].
+    - intros Hok. injection Hok as _ _ <- _. apply grows_refl.
+    - destruct (find_owner (i_idx st) (a_path a)) as [[op up]|].
+      + destruct (rec st done op) as [[st1 done1]|] eqn:Er; [|discriminate]. cbv zeta.
+        destruct (commit_ins rec r st1 done1) as [[[[ow pl] st2] done2]|] eqn:Ei; [|discriminate].
+        intros Hok. injection Hok as _ _ <- _.
+        exact (grows_trans _ _ _ (Hrec _ _ _ _ _ Er) (IH _ _ _ _ _ _ Ei)).
+      + destruct (commit_ins rec r st done) as [[[[ow pl] st2] done2]|] eqn:Ei; [|discriminate].
+        intros Hok. injection Hok as _ _ <- _. exact (IH _ _ _ _ _ _ Ei).
+  Qed.
+
+  Lemma commit_stage_unfold f st strat done inprog sp :
+    commit_stage H (S f) st strat done inprog sp =
+    if mem sp done then Ok (st, done)
+    else if mem sp inprog then Err
+    else match alookup sp (i_idx st) with
+         | None => Err
+         | Some stg =>
+           match commit_ins (fun st done op => commit_stage H f st strat done (sp :: inprog) op)
+                            (s_inputs stg) st done with
+           | Err => Err
+           | Ok (owned, plain, st1, done1) =>
+             match commit_arts H plain true (i_root st1) (i_cache st1) strat with
+             | Err => Err
+             | Ok (plain', root2, c2) =>
+               match commit_arts H (s_outputs stg) false root2 c2 strat with
+               | Err => Err
+               | Ok (outs', root3, c3) =>
+                 let inputs' := fold_left art_set (owned ++ plain') (s_inputs stg) in
+                 let stg1 := mkStage (s_cs stg) (s_cmd stg) (s_wd stg) inputs' outs' in
+                 let stg2 := mkStage (def_checksum H stg1) (s_cmd stg) (s_wd stg) inputs' outs' in
+                 Ok (mkI (set_stage (i_idx st1) sp stg2) root3 c3, sp :: done1)
+               end
+             end
+           end
+         end.
+  Proof. reflexivity. Qed.
+
+  Lemma commit_stage_grows fuel : forall st strat done inprog sp st' done',
+    commit_stage H fuel st strat done inprog sp = Ok (st', done') -> grows (i_cache st) (i_cache st').
+  Proof.
+    induction fuel as [|f IH]; intros st strat done inprog sp st' done'; [discriminate|].
+    rewrite commit_stage_unfold. destruct (mem sp done).
+    - intros Hok. injection Hok as <- _. apply grows_refl.
+    - destruct (mem sp inprog); [discriminate|].
+      destruct (alookup sp (i_idx st)) as [stg|]; [|discriminate].
+      destruct (commit_ins _ (s_inputs stg) st done) as [[[[owned plain] st1] done1]|] eqn:Ei; [|discriminate].
+      destruct (commit_arts H plain true (i_root st1) (i_cache st1) strat) as [[[plain' root2] c2]|] eqn:E1;
+        [|discriminate].
+      destruct (commit_arts H (s_outputs stg) false root2 c2 strat) as [[[outs' root3] c3]|] eqn:E2;
+        [|discriminate].
+      cbv zeta. intros Hok. injection Hok as <- _. cbn [i_cache].
+      apply (grows_trans _ (i_cache st1)).
+      + apply (commit_ins_grows _ (fun st0 done0 op st2 done2 Hr => IH _ _ _ _ _ _ _ Hr) _ _ _ _ _ _ _ Ei).
+      + exact (grows_trans _ _ _ (commit_arts_grows _ _ _ _ _ _ _ _ E1) (commit_arts_grows _ _ _ _ _ _ _ _ E2)).
+  Qed.
+
+  Lemma fold_err {A B} (f : res A -> B -> res A) (l : list B) :
+    (forall b, f Err b = Err) -> fold_left f l Err = Err.
+  Proof. intros Hf. induction l as [|b r IH]; [reflexivity|]. cbn [fold_left]. rewrite Hf. exact IH. Qed.
+
+  Lemma commit_targets_grows fuel strat ts : forall st done st' done',
+    fold_left (fun acc t =>
+                 match acc with
+                 | Ok (st, done) => commit_stage H fuel st strat done [] t
+                 | Err => Err
+                 end) ts (Ok (st, done)) = Ok (st', done') ->
+    grows (i_cache st) (i_cache st').
+  Proof.
+    induction ts as [|t r IH]; intros st done st' done'; cbn [fold_left].
+    - intros Hok. injection Hok as <- _. apply grows_refl.
+    - destruct (commit_stage H fuel st strat done [] t) as [[st1 done1]|] eqn:Es.
+      + intros Hok. exact (grows_trans _ _ _ (commit_stage_grows _ _ _ _ _ _ _ _ Es) (IH _ _ _ _ Hok)).
+      + rewrite fold_err by reflexivity. discriminate.
+  Qed.
+
+  Variable sems : list (bytes * cmdsem).
+
+  (* C02 for every command: only commit changes the cache *)
+  Theorem step_cache_ok w cmd :
+    cache_ok H (w_cache w) ->
+    cache_ok H (w_cache (fst (fst (step H sems w cmd)))) /\
+    cache_le (w_cache w) (w_cache (fst (fst (step H sems w cmd)))).
+  Proof.
+    intros Hc.
+    assert (Hsame : cache_ok H (w_cache w) /\ cache_le (w_cache w) (w_cache w))
+      by (split; [exact Hc|apply cache_le_refl]).
+    unfold step. destruct (w_lock w); [exact Hsame|].
+    destruct (load_index (w_index w) (w_stages w) []) as [idx|]; [|exact Hsame].
+    destruct cmd as [targets copy|targets copy single|targets|targets single|paths|paths].
+    - destruct (all_or targets idx) as [|t ts]; [exact Hsame|]. cbv zeta.
+      match goal with |- context [fold_left ?f ?l ?a] => destruct (fold_left f l a) as [[st done]|] eqn:Ef end;
+        [|exact Hsame].
+      cbn [fst w_cache]. exact (commit_targets_grows _ _ _ _ _ _ _ Ef Hc).
+    - destruct idx as [|i0 idx0]; [exact Hsame|]. cbv zeta.
+      match goal with |- context [fold_left ?f ?l ?a] => destruct (fold_left f l a) as [[root done]|] end;
+        exact Hsame.
+    - destruct idx as [|i0 idx0]; [exact Hsame|]. cbv zeta.
+      match goal with |- context [fold_left ?f ?l ?a] => destruct (fold_left f l a) as [out|] end;
+        exact Hsame.
+    - destruct idx as [|i0 idx0]; [exact Hsame|]. cbv zeta.
+      match goal with |- context [fold_left ?f ?l ?a] => destruct (fold_left f l a) as [[[root ran] log]|] end;
+        exact Hsame.
+    - cbv zeta.
+      match goal with |- context [fold_left ?f ?l ?a] => destruct (fold_left f l a) as [ix|] end;
+        exact Hsame.
+    - cbv zeta.
+      match goal with |- context [fold_left ?f ?l ?a] => destruct (fold_left f l a) as [ix|] end;
+        exact Hsame.
+  Qed.
+
+  (* ... and for every history of commands *)
+  Theorem history_cache_ok cmds : forall w,
+    cache_ok H (w_cache w) ->
+    let w' := fold_left (fun w c => fst (fst (step H sems w c))) cmds w in
+    cache_ok H (w_cache w') /\ cache_le (w_cache w) (w_cache w').
+  Proof.
+    induction cmds as [|cmd r IH]; intros w Hc; cbn [fold_left].
+    - split; [exact Hc|apply cache_le_refl].
+    - destruct (step_cache_ok w cmd Hc) as [Hc1 Hle1].
+      destruct (IH _ Hc1) as [Hc2 Hle2]. split; [exact Hc2|exact (cache_le_trans _ _ _ Hle1 Hle2)].
+  Qed.
+End Histories.
+Print Assumptions step_cache_ok.
+Print Assumptions history_cache_ok.
+
+(* ------------------------------------------------------------------------------------------ *)
+(* Non-vacuity, and the counterexamples to the statements of CacheDefs that are false          *)
+(* ------------------------------------------------------------------------------------------ *)
+
+(* a toy hash that satisfies H_inj, H_has and H_text: "aaa" followed by every element in a
+   prefix-free binary code over the characters 0 1 2 3 *)
+Fixpoint encp (p : positive) : bytes :=
+  match p with
+  | xH => [49]
+  | xO q => 50 :: encp q
+  | xI q => 51 :: encp q
+  end.
+Definition encn (n : N) : bytes := match n with N0 => [48] | Npos p => encp p end.
+Definition Hu (b : bytes) : bytes := 97 :: 97 :: 97 :: flat_map encn b.
+
+Lemma encp_inj p : forall q (r r' : bytes), encp p ++ r = encp q ++ r' -> p = q /\ r = r'.
+Proof.
+  induction p as [p IH|p IH|]; intros [q|q|] r r' E; cbn [encp app] in E; try discriminate;
+    injection E as E.
+  - destruct (IH _ _ _ E) as [-> ->]. split; reflexivity.
+  - destruct (IH _ _ _ E) as [-> ->]. split; reflexivity.
+  - subst r'. split; reflexivity.
+Qed.
+
+Lemma encn_inj n : forall m (r r' : bytes), encn n ++ r = encn m ++ r' -> n = m /\ r = r'.
+Proof.
+  destruct n as [|p]; intros [|q] r r' E; cbn [encn app] in E.
+  - injection E as ->. split; reflexivity.
+  - destruct q; discriminate.
+  - destruct p; discriminate.
+  - destruct (encp_inj _ _ _ _ E) as [-> ->]. split; reflexivity.
+Qed.
+
+Lemma Hu_inj : H_inj Hu.
+Proof.
+  intros a b E. unfold Hu in E. injection E as E. revert b E.
+  induction a as [|x a IH]; intros [|y b] E; cbn [flat_map] in E.
+  - reflexivity.
+  - destruct y as [|[q|q|]]; discriminate.
+  - destruct x as [|[q|q|]]; discriminate.
+  - apply encn_inj in E as [-> E2]. rewrite (IH _ E2). reflexivity.
+Qed.
+
+Lemma Hu_has : H_has Hu.
+Proof. intros b. unfold Hu, has_cs. cbn [List.length]. apply N.leb_le. rewrite !Nat2N.inj_succ. lia. Qed.
+
+Lemma valid_ascii s : Forall (fun b => b < 128) s -> valid (List.length s) s = true.
+Proof.
+  induction 1 as [|b r Hb _ IH]; [reflexivity|]. cbn [List.length valid].
+  replace (b <? 128) with true by lia. exact IH.
+Qed.
+
+Lemma Hu_text : H_text Hu.
+Proof.
+  intros b.
+  assert (Ha : Forall (fun x => x < 128) (Hu b)).
+  { unfold Hu. repeat (constructor; [lia|]). induction b as [|n b IH]; [constructor|].
+    cbn [flat_map]. apply Forall_app. split; [|exact IH].
+    destruct n as [|p]; cbn [encn]; [constructor; [lia|constructor]|].
+    induction p as [p IHp|p IHp|]; cbn [encp]; constructor; try lia; try exact IHp. constructor. }
+  split; [exact (valid_ascii _ Ha)|].
+  unfold bytes_ok. eapply Forall_impl; [|exact Ha]. intros x Hx. cbv beta in *. lia.
+Qed.
+
+Definition str (x : string) : bytes := of_string x.
+
+Ltac good_name_tac := repeat split; try (vm_compute; reflexivity); repeat constructor.
+Ltac no_manifest := intros m Hm; vm_compute in Hm; discriminate.
+
+(* ---- a two-level tree committed into the empty cache ---- *)
+Definition ex_tree : node :=
+  Dir [(str "a", File (str "hello")); (str "sub", Dir [(str "b", File (str "hi"))])].
+Definition ex_art : artifact := mkArt [] (str "data") true false false.
+
+Lemma ex_ctree : ctree [] ex_tree.
+Proof.
+  unfold ex_tree. constructor.
+  - repeat constructor.
+  - constructor; [split; [good_name_tac|constructor; no_manifest]|].
+    constructor; [|constructor]. split; [good_name_tac|].
+    constructor; [repeat constructor|]. constructor; [|constructor].
+    split; [good_name_tac|constructor; no_manifest].
+Qed.
+
+Lemma ex_plain : plain ex_tree.
+Proof.
+  unfold ex_tree. constructor; [repeat constructor|].
+  constructor; [split; [good_name_tac|constructor]|].
+  constructor; [|constructor]. split; [good_name_tac|].
+  constructor; [repeat constructor|]. constructor; [|constructor]. split; [good_name_tac|constructor].
+Qed.
+
+Lemma empty_cache_ok H : cache_ok H [].
+Proof. intros d o Hg. discriminate. Qed.
+Lemma empty_man_plain : man_plain [].
+Proof. intros d o m Hg. discriminate. Qed.
+Lemma empty_cache_inv H : cache_inv H [].
+Proof. split; [apply empty_cache_ok|]. split; intros d o m Hg; discriminate. Qed.
+
+Definition ex_result := commit_node Hu ex_art ex_tree [] Link.
+
+(* commit succeeds; files become links; four objects (two blobs, two manifests) *)
+Example ex_commit :
+  match ex_result with
+  | Ok (n', c', a') =>
+    n' = Dir [(str "a", LinkC (Hu (str "hello"))); (str "sub", Dir [(str "b", LinkC (Hu (str "hi")))])] /\
+    List.length c' = 4%nat /\ a_isdir a' = true /\ has_cs (a_cs a') = true
+  | Err => False
+  end.
+Proof. vm_compute. repeat split. Qed.
+
+(* the premises of the theorems above are satisfiable: instances on this example *)
+Example ex_merkle :
+  codec_ok ->
+  match ex_result with
+  | Ok (_, _, a') => merkle Hu (str "data") false ex_tree = Some (a_cs a')
+  | Err => False
+  end.
+Proof.
+  intros Hcodec. destruct ex_result as [[[n' c'] a']|] eqn:E.
+  - unfold ex_result in E.
+    pose proof (commit_merkle_ctree Hu Hu_inj Hu_text Hcodec _ _ _ _ _ _ _
+                  (empty_cache_ok Hu) empty_man_plain ex_ctree
+                  ltac:(split; [vm_compute; reflexivity|repeat constructor]) E) as Hm.
+    rewrite (plain_logical [] ex_tree ex_plain) in Hm. exact Hm.
+  - vm_compute in E. discriminate.
+Qed.
+
+Example ex_idem :
+  match ex_result with
+  | Ok (n', c', a') => commit_node Hu a' n' c' Link = Ok (n', c', a')
+  | Err => False
+  end.
+Proof. vm_compute. reflexivity. Qed.
+
+(* ---- counterexamples (toy hash: prefix "abc") ---- *)
+Definition Ht (b : bytes) : bytes := 97 :: 98 :: 99 :: b.
+Lemma Ht_inj : H_inj Ht.
+Proof. intros a b E. injection E as E. exact E. Qed.
+Lemma Ht_has : H_has Ht.
+Proof. intros b. unfold Ht, has_cs. cbn [List.length]. apply N.leb_le. rewrite !Nat2N.inj_succ. lia. Qed.
+
+(* stmt_commit_logical: a non-recursive directory artifact skips the sub-directory, which holds
+   a dangling link to the object that the commit of the sibling file creates *)
+Definition cexL_art := mkArt [] (str "d") true true false.
+Definition cexL_tree :=
+  Dir [(str "f", File (str "hello")); (str "sub", Dir [(str "x", LinkC (Ht (str "hello")))])].
+
+Theorem cex_logical : ~ stmt_commit_logical Ht.
+Proof.
+  intros Hst.
+  destruct (commit_node Ht cexL_art cexL_tree [] Copy) as [[[n' c'] a']|] eqn:E.
+  - pose proof (Hst Ht_inj Ht_has _ _ _ _ _ _ _ (empty_cache_ok Ht) E) as Hl.
+    vm_compute in E. injection E as <- <- <-. vm_compute in Hl. discriminate.
+  - vm_compute in E. discriminate.
+Qed.
+Print Assumptions cex_logical.
+
+(* stmt_commit_merkle (1): a dangling link that the commit of a sibling makes resolvable is
+   adopted, but [logical] in the ORIGINAL cache does not follow it *)
+Definition cexM_art := mkArt [] (str "d") true false false.
+Definition cexM_tree := Dir [(str "f", File (str "hello")); (str "g", LinkC (Ht (str "hello")))].
+
+Theorem cex_merkle_link : ~ stmt_commit_merkle Ht.
+Proof.
+  intros Hst.
+  destruct (commit_node Ht cexM_art cexM_tree [] Copy) as [[[n' c'] a']|] eqn:E.
+  - pose proof (Hst Ht_inj _ _ _ _ _ _ _ (empty_cache_ok Ht) empty_man_plain E eq_refl) as Hm.
+    vm_compute in Hm. discriminate.
+  - vm_compute in E. discriminate.
+Qed.
+Print Assumptions cex_merkle_link.
